@@ -25,6 +25,12 @@ ASSUMPTIONS = [
 ]
 
 OTHERS = [n for n in cgen.NAMES if n not in ("RZ", "RY", "U3")]
+SMALL = [4e-3, -2.5e-3, 1e-3, 1e-5, -7e-4, 4 * math.pi + 3e-3, -4 * math.pi - 1e-3, 2 * math.pi - 2e-3]
+
+
+def _angles():
+    """angles as everywhere else, plus small ones (and ones close to a whole number of turns): a rotation by 0.004 is small, not nothing"""
+    return st.one_of(cgen.angles(), cgen.angles(), st.sampled_from(SMALL))
 
 
 @st.composite
@@ -35,10 +41,10 @@ def circ(draw, tier, k1=False):
         r = draw(st.integers(0, 9))
         perm = list(draw(st.permutations(list(range(n)))))
         if r < 3:
-            ops.append({"kind": "u3", "g": "U3", "p": [draw(cgen.angles()) for _ in range(3)], "mods": [], "q": perm[:1]})
+            ops.append({"kind": "u3", "g": "U3", "p": [draw(_angles()) for _ in range(3)], "mods": [], "q": perm[:1]})
         elif r < 6 and n >= 2:
             k = draw(st.integers(1, min(2, n - 1)))
-            th, ph = draw(cgen.angles()), draw(cgen.angles())
+            th, ph = draw(_angles()), draw(_angles())
             if k1:
                 lam = draw(cgen.angles())
             else:
